@@ -246,6 +246,14 @@ class _TokenIntrospectionResource:
         token = body.get("token")
         if not isinstance(token, str) or not token or len(token) > _MAX_TOKEN_CHARS:
             return None
+        try:
+            token.encode("utf-8")
+        except UnicodeEncodeError:
+            # JSON can spell a lone surrogate (``"\ud800"``) that has no UTF-8
+            # form.  No bearer credential looks like that, so it is malformed
+            # like any other -- and must be refused here, not crash the digest
+            # below into a 500 that a caller reads as "retry".
+            return None
         return token
 
     def on_post(self, req: falcon.Request, resp: falcon.Response) -> None:
